@@ -476,6 +476,8 @@ func shDefect(s *gen.Shape, idx int, defect string) gen.Shape {
 	switch defect {
 	case "no-txid":
 		v.Ins[idx].TxID = nil
+	case "no-txid-json": // what bt.Input's JSON decoder leaves for an absent or empty "txid"
+		v.Ins[idx].TxID, v.Ins[idx].ViaJSON = nil, true
 	case "nil-prev-script":
 		v.Ins[idx].PrevScriptNil, v.Ins[idx].PrevScript = true, nil
 	}
@@ -498,7 +500,7 @@ func shRun(c *mon.Ctx, prop string, forkid bool, judge func(*mon.Ctx, *shCase)) 
 		}
 		var slots []slot
 		for i := 0; i < k; i++ {
-			slots = append(slots, slot{uint32(i), ""}, slot{uint32(i), "no-txid"}, slot{uint32(i), "nil-prev-script"})
+			slots = append(slots, slot{uint32(i), ""}, slot{uint32(i), "no-txid"}, slot{uint32(i), "no-txid-json"}, slot{uint32(i), "nil-prev-script"})
 		}
 		slots = append(slots, slot{uint32(k), ""}, slot{0xffffffff, ""})
 		for _, sl := range slots {
@@ -545,7 +547,7 @@ func shRun(c *mon.Ctx, prop string, forkid bool, judge func(*mon.Ctx, *shCase)) 
 				cs.Idx = uint32(k) + uint32(r.Uint64()%uint64(0xffffffff-uint32(k)))
 			default:
 				cs.Idx = uint32(r.Intn(k))
-				cs.Shape = shDefect(s, int(cs.Idx), "no-txid")
+				cs.Shape = shDefect(s, int(cs.Idx), prng.Pick(r, []string{"no-txid", "no-txid-json"}))
 			}
 			judge(c, cs)
 		}
@@ -577,7 +579,7 @@ func shFloor(a *mon.Agg, forkid bool) string {
 func init() {
 	p := &mon.Property{
 		ID: "C02",
-		Rule: "fixed-shapes-exhaustive: 50 transaction shapes (1..6 inputs x 0..6 outputs = 42, six with script-code/unlocking/output script lengths 0,1,252,253,65535,65536, two with all-maximal / all-zero fields; contents from the PRNG) x every input index 0..k-1, k and 2^32-1 x {well-formed, signed input without txid, signed input with nil previous script} x ALL 128 eight-bit hash types with bit 0x40 (this sub-space is enumerated completely: exhaustive=true refers to hash type x index x these 50 shapes). " +
+		Rule: "fixed-shapes-exhaustive: 50 transaction shapes (1..6 inputs x 0..6 outputs = 42, six with script-code/unlocking/output script lengths 0,1,252,253,65535,65536, two with all-maximal / all-zero fields; contents from the PRNG) x every input index 0..k-1, k and 2^32-1 x {well-formed, signed input without txid (never set / decoded by Input.UnmarshalJSON from an empty txid), signed input with nil previous script} x ALL 128 eight-bit hash types with bit 0x40 (this sub-space is enumerated completely: exhaustive=true refers to hash type x index x these 50 shapes). " +
 			"random-shapes: 5,000 (quick) / 300,000 (thorough) random shapes (1..6 inputs, 0..6 outputs, nil/empty/filled unlocking scripts, nil/empty/P2PKH/data/random previous scripts, boundary version/locktime/sequence/value, script lengths from the varint class set), 8 (index, hash type) pairs each, 20% of them error cases. " +
 			"Oracle: CalcInputPreimage byte-equal to the independent refsighash.ForkIDPreimage, CalcInputSignatureHash == sha256d(reference preimage); error classes must return an error and never panic; Bytes/ExtendedBytes/nil-ness snapshot equal before and after each call. " +
 			"distinct_nontrivial = distinct (extended tx bytes, index, hash type) of well-formed in-range cases whose preimage AND digest were returned and compared equal (error cases are not counted).",
